@@ -149,3 +149,8 @@ func VerifAdvClientAck(ackKey *keys.KEMKeyPair, k, cookie []byte, name certs.Nam
 	n, err := hs.writePQClientAck(buf)
 	return buf[:n], err
 }
+
+// VerifDial, when set, replaces the socket-opening part of DialWithDialer (the build step
+// of /verif inserts the call at the top of that function in the instrumented copy): the
+// simulation hands out a client on a simulated endpoint instead of a real UDP socket.
+var VerifDial func(dialer *net.Dialer, network, address string, config ClientConfig) (*Client, error)
